@@ -466,6 +466,11 @@ func TypedValueToString(tv *sdcpb.TypedValue) string {
 		return string(tv.GetBytesVal()) // questionable...
 	case *sdcpb.TypedValue_DecimalVal:
 		d := tv.GetDecimalVal()
+		// a decimal64 has at most 18 fraction digits; do not build strings of an arbitrary
+		// length for values that cannot be valid anyhow
+		if d.GetPrecision() > 18 {
+			return strconv.FormatInt(d.GetDigits(), 10) + "e-" + strconv.FormatUint(uint64(d.GetPrecision()), 10)
+		}
 		digitsStr := strconv.FormatInt(d.Digits, 10)
 		negative := false
 		if d.Digits < 0 {
